@@ -444,8 +444,9 @@ def render_rows(rows, renderers, ctx):
             # At least one multi line cell. Ensure that all cells are lists.
             cells = [cell if isinstance(cell, list) else [cell] for cell in cells]
 
-            # Compute the maximum number of lines in any cell.
-            nlines = max(len(cell) for cell in cells)
+            # Compute the maximum number of lines in any cell. A row
+            # whose multi line cells are all empty still takes one line.
+            nlines = max(1, max(len(cell) for cell in cells))
 
             # Add placeholder lines to short multi line cells.
             for cell in cells:
